@@ -162,6 +162,75 @@ class World:
 FILES = "MCHK"
 
 
+WRAP_WORKER = r"""
+import json, sys
+import numpy as np
+from sasmodels.core import load_model
+from sasmodels.direct_model import call_kernel
+base, wrap = sys.argv[1], sys.argv[2]
+for line in sys.stdin:
+    cmd = json.loads(line)
+    if cmd["op"] == "quit":
+        break
+    m = load_model(base if cmd["op"] == "load_base" else wrap, dtype="double", platform="dll")
+    k = m.make_kernel([np.array([1.0])])
+    pars = dict(scale=1.0, background=0.0)
+    pars.update(rg=1.0) if cmd["op"] == "load_base" else pars.update(size=1.0)
+    print(json.dumps(float(call_kernel(k, pars)[0]))); sys.stdout.flush()
+    k.release()
+"""
+WRAP_BASE = ('from numpy import inf\nname = "verif_c17_base"\ntitle = "C17 base"\ndescription = "a"\ncategory = "shape:sphere"\n'
+             'parameters = [["rg", "", 1.0, [-10, 10], "", ""]]\nIq = "return %d.0 + 0.0*q + rg;"\n')
+WRAP_WRAP = ('import os\nfrom numpy import inf\nfrom sasmodels.core import reparameterize\n'
+             '_base = os.path.join(os.path.dirname(os.path.abspath(__file__)), "verif_c17_base.py")\n'
+             'parameters = [["size", "", 1.0, [-10, 10], "", ""]]\ntranslation = "rg = %d.0*size"\n'
+             'model_info = reparameterize(_base, parameters, translation, __file__)\n')
+
+
+def run_wrapper(root, idx, ops):
+    """A plug-in built ON another plug-in (core.reparameterize(base_path, ..., __file__)): histories of
+    ("base", A) / ("wrap", F) edits (each advancing its file's time) and loads of the base alone or of the wrapper.
+    The wrapper evaluates A + F at q = 1, size = 1; the base alone A + 1.  Returns the observations and expectations."""
+    d = os.path.join(root, "wr%d" % idx)
+    os.makedirs(os.path.join(d, "cache"))
+    bpath, wpath, kpath = os.path.join(d, "verif_c17_base.py"), os.path.join(d, "verif_c17_wrap.py"), os.path.join(d, "worker.py")
+    open(kpath, "w").write(WRAP_WORKER)
+    cur, clock = {"base": 3, "wrap": 2}, {"base": 0, "wrap": 0}
+
+    def put(which, val):
+        cur[which] = val
+        clock[which] += 3
+        path = bpath if which == "base" else wpath
+        open(path, "w").write((WRAP_BASE if which == "base" else WRAP_WRAP) % val)
+        os.utime(path, (T0 + clock[which], T0 + clock[which]))
+    put("base", 3); put("wrap", 2)
+    env = dict(os.environ)
+    env.update(PYTHONPATH=common.REPO, SAS_DLL_PATH=os.path.join(d, "cache"), PYTHONHASHSEED="0", SAS_OPENCL="none", PYTHONDONTWRITEBYTECODE="1")
+    proc = None
+    obs = []
+    try:
+        for op in ops:
+            if op[0] == "edit":
+                put(op[1], op[2])
+            elif op[0] == "fresh":
+                if proc is not None:
+                    proc.stdin.write(json.dumps({"op": "quit"}) + "\n"); proc.stdin.flush(); proc.wait(timeout=20); proc = None
+            else:
+                if proc is None:
+                    proc = subprocess.Popen([common.PY, kpath, bpath, wpath], env=env, stdin=subprocess.PIPE, stdout=subprocess.PIPE, stderr=subprocess.PIPE, text=True, cwd=d)
+                proc.stdin.write(json.dumps({"op": op[0]}) + "\n"); proc.stdin.flush()
+                line = proc.stdout.readline()
+                want = float(cur["base"] + 1) if op[0] == "load_base" else float(cur["base"] + cur["wrap"])
+                got = json.loads(line) if line else None
+                obs.append(dict(op=op[0], got=got, want=want, files=dict(cur), error=None if line else proc.stderr.read()[-400:]))
+                if not line:
+                    proc = None
+        return dict(ops=[list(o) for o in ops], observed=obs)
+    finally:
+        if proc is not None:
+            proc.kill()
+
+
 def gen_history(rng, n):
     """init = {file: (text id, time)}; ops = ("Edit", file, text id, new time) | ("Load", bits) | ("Fresh",).
     Each file keeps its own clock: an edit advances the time of the file it touches by 1..5 s and says nothing
@@ -352,11 +421,33 @@ def main(run):
     n = 8 if not thorough else 110
     for _ in range(n):
         hist.append(gen_history(rng, rng.randint(4, 12)))
+    # plug-ins built on plug-ins: the base loaded alone first, the wrapper edited and reloaded, then the base edited ...
+    whist = [[("load_base",), ("load_wrap",), ("edit", "base", 5), ("load_wrap",), ("edit", "base", 3), ("load_wrap",), ("load_base",)],
+             [("load_wrap",), ("edit", "base", 6), ("load_wrap",), ("edit", "wrap", 4), ("load_wrap",), ("edit", "base", 7), ("load_wrap",), ("edit", "base", 6), ("load_wrap",),
+              ("fresh",), ("load_wrap",)]]
+    for _ in range(2 if not thorough else 12):
+        h_ = []
+        for _k in range(rng.randint(4, 9)):
+            r_ = rng.random()
+            h_.append(("edit", rng.choice(["base", "base", "wrap"]), rng.randint(1, 9)) if r_ < 0.45 else (("fresh",) if r_ < 0.52 else (rng.choice(["load_wrap", "load_wrap", "load_base"]),)))
+        whist.append(h_ + [("load_wrap",)])
+    wres = [run_wrapper(root, i_, h_) for i_, h_ in enumerate(whist)]
     from concurrent.futures import ThreadPoolExecutor
     with ThreadPoolExecutor(max_workers=8) as ex:
         res = list(ex.map(lambda a: run_history(root, a[0], a[1][0], a[1][1]), enumerate(hist)))
     stats = dict(histories=len(res), ops={}, loads=0, fresh=0, reverts=0, libs=0, edits_by_file={}, edits_not_newest=0)
     distinct = set()
+    stats["wrapper_histories"] = len(wres); stats["wrapper_loads"] = 0
+    for wr in wres:
+        for k_, o_ in enumerate(wr["observed"]):
+            stats["wrapper_loads"] += 1
+            if o_["got"] is None or abs(o_["got"] - o_["want"]) > 1e-9:
+                nload = [i for i, op in enumerate(wr["ops"]) if op[0].startswith("load")][k_]
+                run.add(Finding("C17:wrapper", "a plug-in built on another plug-in, history %s: %s returned %r, the files (base constant %d, wrapper factor %d) give %r%s" % (
+                    wr["ops"][:nload + 1], o_["op"], o_["got"], o_["files"]["base"], o_["files"]["wrap"], o_["want"], (" (" + o_["error"][-200:] + ")") if o_["error"] else ""), dict(wr)))
+                break
+        else:
+            distinct.add(("wrapper", json.dumps(wr["ops"])))
     pool = set()
     for r in res:
         desc = dict(r)
